@@ -48,6 +48,20 @@ var variants = []variant{
 	{"rep6", true, func(id uint16, aux, p int) []byte {
 		return eth6(p, lib.MkIP6(peerIP6(p), lib.HostLLA, 58, 64, echo6(peerIP6(p), lib.HostLLA, 129, id, data(aux))))
 	}},
+	// echo replies that are not addressed to the host's own IP / MAC: the property puts no condition on
+	// the destination (the library itself pings with the router's IP as source: ValidateDefaultRouter)
+	{"dst4", true, func(id uint16, aux, p int) []byte {
+		ipd := []netip.Addr{lib.HostIP4, lib.RouterIP4, netip.MustParseAddr("192.168.0.77"), netip.MustParseAddr("192.168.0.255"),
+			netip.MustParseAddr("255.255.255.255"), netip.MustParseAddr("224.0.0.1"), netip.MustParseAddr("10.1.2.3")}[aux%7]
+		ed := []net.HardwareAddr{lib.HostMAC, lib.RouterMAC, {0xff, 0xff, 0xff, 0xff, 0xff, 0xff}, {0x01, 0x00, 0x5e, 0, 0, 1}}[aux/7%4]
+		return lib.MkEther(ed, peerMAC(p), 0x0800, ip4Echo(peerIP4(p), ipd, 1, lib.MkICMPEcho(0, 0, id, 1, data(aux))))
+	}},
+	{"dst6", true, func(id uint16, aux, p int) []byte {
+		ipd := []netip.Addr{lib.HostLLA, lib.RouterLLA, netip.MustParseAddr("2001:db8::129"), netip.MustParseAddr("ff02::1"),
+			netip.MustParseAddr("fe80::77")}[aux%5]
+		ed := []net.HardwareAddr{lib.HostMAC, lib.RouterMAC, {0x33, 0x33, 0, 0, 0, 1}, {0xff, 0xff, 0xff, 0xff, 0xff, 0xff}}[aux/5%4]
+		return lib.MkEther(ed, peerMAC(p), 0x86dd, lib.MkIP6(peerIP6(p), ipd, 58, 64, echo6(peerIP6(p), ipd, 129, id, data(aux))))
+	}},
 	// echo requests never complete a ping
 	{"req4", false, func(id uint16, aux, p int) []byte {
 		return eth4(p, ip4Echo(peerIP4(p), lib.HostIP4, 1, lib.MkICMPEcho(8, 0, id, 1, data(aux))))
